@@ -340,6 +340,8 @@ def run(ctx):
                    "zlist_eqb (fst r) (fst out) && oz_eqb (snd r) (snd out)", lambda i: rr_descr[i])
     run_query_sources(ctx)
     run_bulk_io(ctx)
+    run_create_threaded(ctx)
+    run_start_faults(ctx)
     ctx.corr_check('render_capture', 'Pool PoolSync', 'nat * list val * list nat * (list Z * option Z)', rc_terms,
                    "fun c => let '(ps, items, arr, out) := c in let r := render_capture ps items arr 1 in "
                    "oz_eqb (snd r) (snd out) && match snd out with Some _ => true | None => zlist_eqb (fst (fst r)) (fst out) end",
@@ -507,6 +509,191 @@ def run_query_sources(ctx):
     ctx.corr_check('query_sources', 'Pool PoolSync', 'list val * list nat * (list (Z * nat) * option Z)', terms,
                    "fun c => let '(items, arr, out) := c in let r := query_sources items arr 1 in "
                    "pairs_eqb (fst r) (fst out) && oz_eqb (snd r) (snd out)", lambda i: descr[i])
+
+
+# ---------------------------------------------------------------- TileCreator._create_single_tiles / _create_meta_tiles
+
+def create_threaded_run(which, items, delays, conc):
+    """The real TileCreator._create_single_tiles / _create_meta_tiles (non-bulk) with the per-item creator replaced:
+    creator k returns [tile k] / [] or raises.  Returns (ids of the tiles returned, raised id)."""
+    from mapproxy.cache.tile import TileCreator
+    from mapproxy.source import SourceError
+
+    class T(object):
+        def __init__(self, k):
+            self.k = k
+            self.coord = (k, 0, 3)
+
+    def create(self, tile, dimensions=None):
+        k = tile.k
+        time.sleep(delays[k])
+        kind, v = items[k]
+        if kind == 'blank':
+            return []
+        if kind == 'exc':
+            if v >= 1000:
+                raise Hard(v)
+            raise SourceError('S%d' % v)
+        t = T(k)
+        t.ident = v
+        return [t]
+
+    class Creator(TileCreator):
+        _create_single_tile = create
+        _create_meta_tile = create
+
+    mgr = _FakeMgr([], None)
+    mgr.concurrent_tile_creators = conc
+    creator = Creator(mgr)
+    tiles = [T(k) for k in range(len(items))]
+    raised, out = None, []
+    try:
+        res = creator._create_single_tiles(tiles) if which == 'single' else creator._create_meta_tiles(tiles)
+        out = [t.ident for t in res]
+    except SourceError as ex:
+        raised = int(str(ex.args[0])[1:])
+    except Hard as ex:
+        raised = ex.ident
+    return out, raised
+
+
+def run_create_threaded(ctx):
+    rng = ctx.rng
+    cases = []
+    for conc in (1, 3):
+        for its in ([('exc', 100), ('ok', 11), ('ok', 12)], [('ok', 10), ('exc', 101), ('ok', 12)], [('ok', 10), ('ok', 11), ('exc', 102)],
+                    [('exc', 1000), ('ok', 11)], [('ok', 10), ('blank', -1), ('ok', 12)], [('exc', 100)]):
+            n = len(its)
+            cases.append(('single' if conc == 1 else 'meta', conc, list(its), [0.004 * ((k * 2 + 1) % n) for k in range(n)]))
+            cases.append(('meta' if conc == 1 else 'single', conc, list(its), [0.004 * (n - k) for k in range(n)]))
+    for c in range(ctx.n(24, 160)):
+        n = rng.choice([1, 2, 3, 4, 6])
+        items = gen_items(rng, n, allow_fail=False)
+        if c % 2 == 0:      # at most one failing creator: the raised exception then does not depend on the order
+            items[rng.randrange(n)] = ('exc', rng.choice([100, 1000]) + rng.randrange(50))
+        cases.append((rng.choice(['single', 'meta']), rng.choice([1, 2, 3, 6]), items,
+                      [rng.choice([0.0, 0.002, 0.006, 0.012]) for _ in range(n)]))
+    terms, descr = [], []
+    for which, conc, items, delays in cases:
+        st, res = with_timeout(create_threaded_run, (which, items, delays, conc))
+        rep = {'consumer': 'TileCreator._create_%s_tiles' % which, 'concurrent_tile_creators': conc, 'creator_outcomes': items, 'delays': delays}
+        if st != 'ok':
+            ctx.fail('consumer=create_threaded,' + ('hang' if st == 'hang' else 'unexpected-exception'),
+                     'did not terminate' if st == 'hang' else 'raised %r' % (res,), rep)
+            continue
+        out, raised = res
+        rep.update({'returned': out, 'raised': raised})
+        ctx.case(('create_threaded', which, conc, tuple(items), tuple(delays)), len(items) > 1, rep)
+        ctx.count('consumer=create_threaded')
+        fe = spec_first_exc(items)
+        want = [v for k, v in items if k == 'ok']
+        if fe is not None:
+            if raised is None:
+                ctx.fail('consumer=create_threaded,swallowed', 'creator failure %r not raised (returned %r)' % (fe, out), rep)
+            elif raised != fe:
+                ctx.fail('consumer=create_threaded,wrong-exception', 'raised %r, the failing creator raised %r' % (raised, fe), rep)
+        elif raised is not None:
+            ctx.fail('consumer=create_threaded,spurious-raise', 'raised %r although no creator failed' % raised, rep)
+        elif out != want:
+            ctx.fail('consumer=create_threaded,lost-or-reordered', 'returned %r, expected %r' % (out, want), rep)
+        arrival = sorted(range(len(items)), key=lambda i: (delays[i], i))
+        terms.append('(%d%%nat, %s, %s, (%s, %s))' % (conc, llit(items, vlit), llit(arrival, lambda a: '%d%%nat' % a),
+                                                      llit(out), olit(raised)))
+        descr.append(rep)
+    ctx.corr_check('create_threaded', 'Pool PoolSync', 'nat * list val * list nat * (list Z * option Z)', terms,
+                   "fun c => let '(ps, items, arr, out) := c in let r := create_threaded ps items arr 1 in "
+                   "zlist_eqb (fst r) (fst out) && oz_eqb (snd r) (snd out)", lambda i: descr[i])
+
+
+# ---------------------------------------------------------------- thread-start faults
+
+def start_fault_run(pool_size, uro, items, fail_at):
+    """ThreadPool(pool_size).imap over items while the (fail_at+1)-th ThreadWorker.start() of this call raises
+    RuntimeError (what CPython raises at the thread limit).  Returns (yielded codes, raised code)."""
+    import mapproxy.util.async_ as A
+    count = [0]
+    orig = A.ThreadWorker.start
+
+    def start(self):
+        k = count[0]
+        count[0] += 1
+        if fail_at is not None and k == fail_at:
+            raise RuntimeError("can't start new thread")
+        return orig(self)
+
+    def work(i):
+        kind, v = items[i]
+        if kind == 'exc':
+            raise Hard(v)
+        return None if kind == 'blank' else v
+
+    A.ThreadWorker.start = start
+    out, raised = [], None
+    try:
+        for r in A.ThreadPool(pool_size).imap(work, list(range(len(items))), use_result_objects=uro):
+            if uro:
+                if r.exception is not None:
+                    out.append(('exc', r.exception[1].ident))
+                else:
+                    out.append(('blank', -1) if r.result is None else ('ok', r.result))
+            else:
+                out.append(('blank', -1) if r is None else ('ok', r))
+    except Hard as ex:
+        raised = ex.ident
+    except RuntimeError:
+        raised = 9999
+    finally:
+        A.ThreadWorker.start = orig
+    return out, raised
+
+
+def run_start_faults(ctx):
+    rng = ctx.rng
+    cases = []
+    for ps in (2, 3):
+        for k in range(ps + 1):
+            cases.append((ps, True, [('ok', 10), ('ok', 11), ('ok', 12)], k))
+            cases.append((ps, False, [('ok', 10), ('blank', -1)], k))
+    cases += [(1, False, [('ok', 10), ('ok', 11)], 0), (4, True, [('ok', 10)], 0), (2, True, [('ok', 10), ('exc', 1001)], None)]
+    for c in range(ctx.n(10, 60)):
+        n = rng.choice([1, 2, 3, 5])
+        ps = rng.choice([1, 2, 3, 4])
+        uro = rng.random() < 0.5
+        items = gen_items(rng, n, allow_fail=False)
+        if uro and rng.random() < 0.4:
+            items[rng.randrange(n)] = ('exc', 1000 + rng.randrange(50))
+        cases.append((ps, uro, items, rng.choice([None, 0, 0, 1, 2, 5])))
+    terms, descr = [], []
+    for ps, uro, items, fail_at in cases:
+        st, res = with_timeout(start_fault_run, (ps, uro, items, fail_at), seconds=5.0)
+        rep = {'call': 'ThreadPool(%d).imap(..., use_result_objects=%r)' % (ps, uro), 'items': items,
+               'fault': None if fail_at is None else 'Thread.start() call number %d raises RuntimeError' % (fail_at + 1)}
+        # the hook is restored by the worker thread only when it finishes: make sure it is gone after a hang
+        import mapproxy.util.async_ as A
+        if st == 'hang':
+            A.ThreadWorker.start = threading.Thread.start
+            ctx.fail('start-fault,hang', 'the call did not return within 5 s: the consumer waits for results although '
+                     'no worker thread could be started', rep)
+            continue
+        if st != 'ok':
+            ctx.fail('start-fault,unexpected-exception', 'raised %r' % (res,), rep)
+            continue
+        out, raised = res
+        rep.update({'yielded': out, 'raised': raised})
+        ctx.case(('start_fault', ps, uro, tuple(items), fail_at), fail_at is not None, rep)
+        ctx.count('start_fault')
+        pool = ps >= 2 and len(items) >= 2
+        if raised is None and out != list(items):
+            ctx.fail('start-fault,lost-or-reordered', 'the call returned normally with %r for items %r' % (out, items), rep)
+        if raised == 9999 and not (pool and fail_at is not None and fail_at < ps):
+            ctx.fail('start-fault,spurious', 'RuntimeError although no thread start failed', rep)
+        terms.append('(%d%%nat, %s, %s, %s, (%s, %s))' % (ps, 'true' if uro else 'false', llit(items, vlit),
+                                                         'None' if fail_at is None else 'Some %d%%nat' % fail_at,
+                                                         llit(out, vlit), olit(raised)))
+        descr.append(rep)
+    ctx.corr_check('start_fault', 'Pool PoolSync', 'nat * bool * list val * option nat * (list val * option Z)', terms,
+                   "fun c => let '(ps, uro, items, fa, out) := c in "
+                   "result_eqb (imap_start ps uro items (seq 0 (List.length items)) 1 fa) out", lambda i: descr[i])
 
 
 # ---------------------------------------------------------------- bulk loads / stores of the S3 and Azure caches
